@@ -783,7 +783,13 @@ class GraphBuilder(BuilderBase):
 
         count = self.graph.num_nodes()
         node_name_prefix = self._qualify_node_name(f"{function.name}_node_{count}/")
-        nodes, outputs = _inliner.instantiate(graph, args, kwargs, prefix=node_name_prefix)
+        # Attribute values may be given as plain Python values, as for call()
+        attributes = {
+            attr.name: attr for attr in ir.convenience.convert_attributes(kwargs)
+        }
+        nodes, outputs = _inliner.instantiate(
+            graph, args, attributes, prefix=node_name_prefix
+        )
 
         # Track final output values so we can rename them separately.
         # The inliner prefixes all names, which would prevent name-based lookup
